@@ -15,7 +15,8 @@ RULE = ("Generated from the meaning outward: (type, network, station octets[, IP
         "Address(str(a)) == a; all spellings of one meaning pairwise ==, equal hash, same dict slot; different meanings != ; "
         "out-of-range and garbage input raises ValueError/TypeError/OSError. Non-trivial: any spelling other than a bare int; "
         "distinct by (spelling, meaning)."
-        " Also: octet strings with 0xBA 0xBF..0xD0 at every offset and length (port look-alikes); mask lengths above 32 must be refused.")
+        " Also: octet strings with 0xBA 0xBF..0xD0 at every offset and length (port look-alikes); mask lengths above 32 must be refused."
+        " Near-miss spellings (hex-digit neighbours, pairs); any-address and negative-host tuples.")
 ASSUMPTIONS = [
     "route suffixes (@...) and settings.route_aware are outside the statement's list of notations and are not generated",
     "leading-zero dotted octets, ports > 65535 and interface names are outside the domain",
